@@ -394,8 +394,10 @@ class G:
                     self.features.add("bitpos")
                     continue
                 if r < 18:
-                    bl = self.pick([4, 8, 12, 16, 3])
-                    bit = self.d(st.integers(0, 7)) if bl < 8 else 0
+                    bl = self.pick([4, 8, 12, 16, 3, 8, 16, 72, 128, 67])
+                    if bl > 64:
+                        self.features.add("reserved:over-64-bits")
+                    bit = self.d(st.integers(0, 7)) if (bl < 8 or (bl > 64 and self.chance(30))) else 0
                     sz = (bit + bl + 7) // 8
                     p = {"pk": "reserved", "name": self.nid("rsv"), "pos": pos, "bit": bit, "bl": bl, "_end": pos + sz}
                     static_layout.append(p)
@@ -403,7 +405,7 @@ class G:
                     self.features.add("pk:reserved")
                     continue
                 if r < 24:
-                    if self.chance(20) and self.opts.get("bytefield_const", True):
+                    if self.chance(35) and self.opts.get("bytefield_const", True):
                         nb = self.d(st.integers(1, 3))
                         dct = {"t": "std", "bt": "A_BYTEFIELD", "bl": 8 * nb, "enc": None, "hl": None}
                         bit, sz = 0, nb
